@@ -49,7 +49,12 @@ Judge ==
       r   == [pre |-> pre, act |-> LoadAct(t.act), ok |-> t.ok, post |-> s, events |-> t.events, signers |-> t.signers,
               genesisOK |-> t.genesisOK, digests |-> t.digests]
       JS(pid, name, P(_)) == pid \in Which => J(pid, name, P(s) \/ (IsStep /\ ~P(pre)))
+      conf == "CONF" \in Which =>
+                LET ap == Apply(r.pre, r.act) IN
+                IF ap.S = r.post /\ ap.ok = r.ok THEN TRUE ELSE PrintT(<<"DRIFT", l, r.act.act, ap.ok, r.ok>>)
   IN
+  \* the genesis export/import round trip is not a marketplace transaction: conformance only
+  IF t.act.act = "GenesisRoundTrip" THEN conf ELSE
   /\ JS("C01", "Conservation", Conservation)
   /\ JS("C02", "NonNegative", NonNegative)
   /\ JS("C02", "TransferredMatchesCredits", TransferredMatchesCredits)
@@ -74,10 +79,7 @@ Judge ==
        /\ J("C08", "UpdateGuard", UpdateGuard(r))
        /\ J("C08", "AttributeRecordsFollowTransactions", AttributeRecordsFollowTransactions(r))
        /\ J("C16", "EventsMatchDiff", EventsMatchDiff(r))
-       \* conformance: the recorded step is the step the specification's action produces (drift is not an alarm)
-       /\ "CONF" \in Which =>
-            LET ap == Apply(r.pre, r.act) IN
-            IF ap.S = r.post /\ ap.ok = r.ok THEN TRUE ELSE PrintT(<<"DRIFT", l, r.act.act, ap.ok, r.ok>>)
+       /\ conf
 
 \* every line was consumed
 Accepted == TLCGet("stats").diameter = N
